@@ -276,6 +276,34 @@ pub fn c09_world() {
     core::mem::forget(w);
 }
 
+/// World class, two levels in one call: uncompact(&[world], 1) = the 60 quintant cells, face-major,
+/// pairwise distinct, each canonical of resolution 1 (added for seeded change c07-world-res1-twelve,
+/// which returns only 12 of them and which c09_world — target 0 — cannot see).
+#[kani::proof]
+#[kani::unwind(62)]
+#[kani::stub(alloc::fmt::format, fmt_stub)]
+#[kani::stub(a5::core::serialization::get_resolution, res_stub)]
+pub fn c09_world_r1() {
+    warm();
+    let w = match a5::uncompact(&[WORLD_CELL], 1) {
+        Ok(v) => v,
+        Err(_) => {
+            assert!(false);
+            return;
+        }
+    };
+    assert!(w.len() == 60);
+    let a: usize = kani::any();
+    let b: usize = kani::any();
+    kani::assume(a < 60 && b < 60 && a != b);
+    kani::cover!(a == 59 && b == 0);
+    assert!(w[a] != w[b]);
+    assert!(res_stub(w[a]) == 1 && spec_valid(w[a]));
+    // face-major: the top-6-bit quintant code of entry a belongs to face a / 5
+    assert!(((w[a] >> 58) / 5) as usize == a / 5);
+    core::mem::forget(w);
+}
+
 /// Base class: ∀ face: uncompact(&[base f], 1) = its 5 quintants.
 #[kani::proof]
 #[kani::unwind(32)]
